@@ -5,16 +5,17 @@ CONSTANTS
   Shard = {11, 21}
   MaxStreams = 6
   MaxEnv = 8
-  MaxMsg = 3
+  MaxMsg = 5
   AllowHold = TRUE
   AllowBreak = TRUE
   AllowStall = TRUE
   Cap = 1
+  AllowTopo = TRUE
   AllowRemove = TRUE
-  FixSenderPrune = FALSE
-  FixGuardedDelete = FALSE
-  FixOpening = FALSE
-  FixPeerKey = FALSE
+  FixSenderPrune = TRUE
+  FixGuardedDelete = TRUE
+  FixOpening = TRUE
+  FixPeerKey = TRUE
   Depth = 20
   MaxSlow = 0
   Warm = TRUE
